@@ -153,6 +153,9 @@ func illegalGrammar() []c10Case {
 			if i > 0 && int(l[i][0]) <= int(l[i-1][0])+int(l[i-1][1])+1 {
 				return false
 			}
+			if int(l[i][0])+int(l[i][1]) > 65535 {
+				return false // the run would end beyond the chunk
+			}
 		}
 		return true
 	}
@@ -176,6 +179,31 @@ func illegalGrammar() []c10Case {
 		for _, b := range r3 {
 			for _, c := range r3 {
 				addRunList(7, [][2]uint16{a, b, c})
+			}
+		}
+	}
+	// raw (start, length) pairs, so that a run may end beyond 65535 in ANY position of the list (its uint16 end wraps
+	// to a small value and the pairwise order checks no longer see it): all lists of 2, and of 3 over a smaller alphabet
+	var raw2, raw3 [][2]uint16
+	for _, st := range []uint16{0, 100, 65000, 65100, 65535} {
+		for _, ln := range []uint16{0, 10, 1000, 65535} {
+			raw2 = append(raw2, [2]uint16{st, ln})
+		}
+	}
+	for _, st := range []uint16{0, 65000, 65100} {
+		for _, ln := range []uint16{10, 1000} {
+			raw3 = append(raw3, [2]uint16{st, ln})
+		}
+	}
+	for _, a := range raw2 {
+		for _, b := range raw2 {
+			addRunList(3, [][2]uint16{a, b})
+		}
+	}
+	for _, a := range raw3 {
+		for _, b := range raw3 {
+			for _, c := range raw3 {
+				addRunList(3, [][2]uint16{a, b, c})
 			}
 		}
 	}
